@@ -839,6 +839,10 @@ class PE:
             return ExtRef(f"{base.qname}.{attr}")
         if type(base).__name__ == "_Logger":
             return ExtRef("logging.noop")
+        if type(base).__name__ == "SimpleNamespace":  # results of mocked library calls (e.g. solve_ivp)
+            if hasattr(base, attr):
+                return getattr(base, attr)
+            raise PERaise("AttributeError", attr)
         if isinstance(base, Obj):
             return self.obj_getattr(base, attr)
         if isinstance(base, ClassRef):
